@@ -1,93 +1,44 @@
 (* C26 — Content-filtered readers present exactly the samples that pass the filter.
    Property file: statements, `exact`, pins, assumptions.
-   Model: Cache/FilterModel.v (communication_methods.rs:46-367, topic_entity.rs:24-45).
+   Model: Cache/FilterModel.v (communication_methods.rs:46-375 as of c4677f2 / 88b96b4, topic_entity.rs:24-45).
      eval_code f s        the filter evaluation of the code for one alive sample (Pass / Fail / Error, or panic)
      spec_eval f s        the property's reading of `member <= %n` / `member = %n` (None = unsupported form)
      run_reader flt gs st the per-reader loop of the worker over the arrival groups gs (one worker step each)
-     run_reader_patched   the same loop with `continue` instead of `continue 'data_readers`
      presented            the samples with valid data in the reader's sample list, in order
-     in_domain f c        c is an alive change whose sample the supported form f decides
-     lossy flt gs         some group has a rejected change followed, in the same group, by a passing one *)
+     in_domain f c        c is an alive change whose sample the supported form f decides *)
 From DustDDS Require Import Base.Machine Cache.FilterModel Cache.FilterProofs.
 Open Scope Z_scope.
 
-(* the evaluator computes the DDS predicate for every supported expression that names %0 *)
+(* the evaluator computes the DDS predicate for every supported expression, whatever parameter it names *)
 Theorem C26_eval_code_eq_spec :
-  forall f s b, spec_index f = Some 0%nat -> spec_eval f s = Some b -> eval_code f s = Ok (of_bool b).
+  forall f s b, spec_eval f s = Some b -> eval_code f s = Ok (of_bool b).
 Proof. exact eval_code_eq_spec. Qed.
 
-(* ... and for %n whenever parameter n equals parameter 0; *)
-Theorem C26_eval_code_eq_spec_same_param :
-  forall f s b n, spec_index f = Some n ->
-    nth_error (f_params f) n = nth_error (f_params f) 0 ->
-    spec_eval f s = Some b -> eval_code f s = Ok (of_bool b).
-Proof. exact eval_code_eq_spec_same_param. Qed.
+(* (the supported forms are exactly those naming a parameter index n < length params) *)
+Theorem C26_spec_defined_index_in_range :
+  forall f s b, spec_eval f s = Some b ->
+    exists n, spec_index f = Some n /\ (n < length (f_params f))%nat.
+Proof. exact spec_eval_index_in_range. Qed.
 
-(* otherwise it does not (known finding C26-param-index-ignored): `num = %1`, ["3";"9"], num = 9 *)
-Theorem C26_param_index_ignored_refutes :
-  exists f s, spec_eval f s = Some true /\ eval_code f s = Ok Fail.
-Proof. exact param_index_ignored. Qed.
-
-(* THE PROPERTY on the code as written, outside the known class: for every supported filter, every
-   list of samples and every arrival grouping without a lossy group, the reader presents exactly the
-   samples that satisfy the filter, in order *)
-Theorem C26_presented_eq_filter_batch_unless_lossy :
+(* THE PROPERTY: for every supported filter, every list of samples and EVERY arrival grouping the
+   reader presents exactly the samples that satisfy the filter, in order *)
+Theorem C26_presented_eq_filter_batch :
   forall f groups,
-    spec_index f = Some 0%nat ->
     forallb (forallb (in_domain f)) groups = true ->
-    lossy (Some f) groups = false ->
     exists st, run_reader (Some f) groups reader_init = Ok st /\
       presented (r_samples st) = map ch_data (filter (spec_true f) (concat groups)).
-Proof. exact presented_eq_filter_batch_unless_lossy. Qed.
+Proof. exact presented_eq_filter_batch. Qed.
 
-(* the unconditional statement is FALSE on the code as written (known finding C26-batch-dropped):
-   one group [num=9 (fails num <= 5); num=4 (passes)] *)
-Theorem C26_presented_eq_filter_batch_refuted :
-  exists f groups,
-    spec_index f = Some 0%nat /\
-    forallb (forallb (in_domain f)) groups = true /\
-    exists st, run_reader (Some f) groups reader_init = Ok st /\
-      presented (r_samples st) <> map ch_data (filter (spec_true f) (concat groups)).
-Proof. exact presented_eq_filter_batch_refuted. Qed.
-
-(* the class is exact: every lossy grouping loses at least one passing sample *)
-Theorem C26_lossy_loses_a_passing_sample :
-  forall f groups,
-    spec_index f = Some 0%nat ->
-    forallb (forallb (in_domain f)) groups = true ->
-    lossy (Some f) groups = true ->
-    exists st, run_reader (Some f) groups reader_init = Ok st /\
-      (length (presented (r_samples st)) < length (filter (spec_true f) (concat groups)))%nat.
-Proof. exact lossy_loses_a_passing_sample. Qed.
-
-(* the half of the property that holds for EVERY grouping: nothing but passing samples is ever
-   presented, none twice, in arrival order *)
-Theorem C26_presented_sublist_of_passing :
-  forall f groups,
-    spec_index f = Some 0%nat ->
-    forallb (forallb (in_domain f)) groups = true ->
-    exists st, run_reader (Some f) groups reader_init = Ok st /\
-      sublist (presented (r_samples st)) (map ch_data (filter (spec_true f) (concat groups))).
-Proof. exact presented_sublist_of_passing. Qed.
-
-(* one sample per worker step (a dust-dds writer sends one DATA per datagram): exact *)
-Theorem C26_presented_eq_filter_one_per_step :
-  forall f groups,
-    spec_index f = Some 0%nat ->
-    forallb (forallb (in_domain f)) groups = true ->
-    forallb (fun g => (length g <=? 1)%nat) groups = true ->
-    exists st, run_reader (Some f) groups reader_init = Ok st /\
-      presented (r_samples st) = map ch_data (filter (spec_true f) (concat groups)).
-Proof. exact presented_eq_filter_one_per_step. Qed.
-
-(* THE PROPERTY, unconditionally in the grouping, for the proposed one-token patch *)
-Theorem C26_presented_eq_filter_batch_patched :
-  forall f groups,
-    spec_index f = Some 0%nat ->
-    forallb (forallb (in_domain f)) groups = true ->
-    exists st, run_reader_patched (Some f) groups reader_init = Ok st /\
-      presented (r_samples st) = map ch_data (filter (spec_true f) (concat groups)).
-Proof. exact presented_eq_filter_batch_patched. Qed.
+(* a failing sample never costs a passing one: the grouping does not matter at all *)
+Theorem C26_grouping_irrelevant :
+  forall f g1 g2,
+    concat g1 = concat g2 ->
+    forallb (forallb (in_domain f)) g1 = true ->
+    forallb (forallb (in_domain f)) g2 = true ->
+    exists s1 s2, run_reader (Some f) g1 reader_init = Ok s1 /\
+                  run_reader (Some f) g2 reader_init = Ok s2 /\
+                  presented (r_samples s1) = presented (r_samples s2).
+Proof. exact grouping_irrelevant. Qed.
 
 (* a reader on the related (plain) topic presents every sample, whatever its siblings filter *)
 Theorem C26_plain_reader_presents_all :
@@ -99,24 +50,23 @@ Proof. exact plain_reader_presents_all. Qed.
 Theorem C26_oracle_sound : forall a b, samples_eqb a b = true <-> a = b.
 Proof. exact samples_eqb_eq. Qed.
 
-(* non-vacuity: a supported filter, in-domain samples, a non-lossy two-group history with a
-   failing sample in front of a passing one in different groups *)
+(* non-vacuity, on the witnesses of the two repaired defects: the group [fail; pass] keeps the passing
+   sample, and `num = %1` with ["3";"9"] accepts num = 9 *)
 Example C26_nonvacuous :
-  spec_index w_flt = Some 0%nat /\
-  forallb (forallb (in_domain w_flt)) [[w_ch 4; w_ch 9]; [w_ch 5]] = true /\
-  lossy (Some w_flt) [[w_ch 4; w_ch 9]; [w_ch 5]] = false /\
-  filter (spec_true w_flt) (concat [[w_ch 4; w_ch 9]; [w_ch 5]]) = [w_ch 4; w_ch 5] /\
-  lossy (Some w_flt) [[w_ch 9; w_ch 4]] = true.
-Proof. vm_compute. repeat split. Qed.
+  forallb (forallb (in_domain w_flt)) [[w_ch 9; w_ch 4]; [w_ch 5]] = true /\
+  filter (spec_true w_flt) (concat [[w_ch 9; w_ch 4]; [w_ch 5]]) = [w_ch 4; w_ch 5] /\
+  (exists st, run_reader (Some w_flt) [[w_ch 9; w_ch 4]; [w_ch 5]] reader_init = Ok st /\
+              presented (r_samples st) = [w_sample 4; w_sample 5]) /\
+  spec_eval (mkCft w_expr_eq1 [[51]; [57]]) (w_sample 9) = Some true /\
+  eval_code (mkCft w_expr_eq1 [[51]; [57]]) (w_sample 9) = Ok Pass.
+Proof.
+  split; [vm_compute; reflexivity|]. split; [vm_compute; reflexivity|].
+  split; [eexists; split; vm_compute; reflexivity|]. split; vm_compute; reflexivity.
+Qed.
 
 Print Assumptions C26_eval_code_eq_spec.
-Print Assumptions C26_eval_code_eq_spec_same_param.
-Print Assumptions C26_param_index_ignored_refutes.
-Print Assumptions C26_presented_eq_filter_batch_unless_lossy.
-Print Assumptions C26_presented_eq_filter_batch_refuted.
-Print Assumptions C26_lossy_loses_a_passing_sample.
-Print Assumptions C26_presented_sublist_of_passing.
-Print Assumptions C26_presented_eq_filter_one_per_step.
-Print Assumptions C26_presented_eq_filter_batch_patched.
+Print Assumptions C26_spec_defined_index_in_range.
+Print Assumptions C26_presented_eq_filter_batch.
+Print Assumptions C26_grouping_irrelevant.
 Print Assumptions C26_plain_reader_presents_all.
 Print Assumptions C26_oracle_sound.
